@@ -315,8 +315,21 @@ impl GraphMutator {
                     output_id,
                     value,
                 } => {
+                    // As for identity fusions, graph output IDs must be
+                    // preserved. The new constant is named after the fused
+                    // operator rather than the replaced value, so a graph
+                    // output could otherwise no longer be requested by name.
                     let const_id = self.graph.add_constant_node(value);
-                    self.replace_value(output_id, const_id);
+                    if self.output_ids.contains(&output_id) {
+                        self.add_operator(
+                            None,
+                            Arc::new(Identity {}),
+                            &[Some(const_id)],
+                            &[Some(output_id)],
+                        )
+                    } else {
+                        self.replace_value(output_id, const_id);
+                    }
                 }
             }
         }
@@ -369,11 +382,13 @@ struct ConsumerInfo {
 /// Returns `None` if any elements cannot be represented exactly in `dtype`.
 fn add_typed_constant(
     graph: &mut GraphMutator,
+    name: Option<&str>,
     constant: &rten_shape_inference::Constant,
     dtype: DataType,
 ) -> Option<NodeId> {
     fn add_constant<T: Copy + rten_tensor::Scalar>(
         graph: &mut GraphMutator,
+        name: Option<&str>,
         constant: &rten_shape_inference::Constant,
         convert: impl Fn(i32) -> Option<T>,
     ) -> Option<NodeId>
@@ -387,17 +402,17 @@ fn add_typed_constant(
                 Tensor::from(elts?)
             }
         };
-        Some(graph.add_constant(None, tensor.into_arc()))
+        Some(graph.add_constant(name, tensor.into_arc()))
     }
 
     match dtype {
-        DataType::Int32 => add_constant(graph, constant, Some),
+        DataType::Int32 => add_constant(graph, name, constant, Some),
         // `f32` represents integers exactly only up to 2^24.
-        DataType::Float => add_constant(graph, constant, |x| {
+        DataType::Float => add_constant(graph, name, constant, |x| {
             (x.unsigned_abs() <= (1 << f32::MANTISSA_DIGITS)).then_some(x as f32)
         }),
-        DataType::Int8 => add_constant(graph, constant, |x| i8::try_from(x).ok()),
-        DataType::UInt8 => add_constant(graph, constant, |x| u8::try_from(x).ok()),
+        DataType::Int8 => add_constant(graph, name, constant, |x| i8::try_from(x).ok()),
+        DataType::UInt8 => add_constant(graph, name, constant, |x| u8::try_from(x).ok()),
     }
 }
 
@@ -546,11 +561,32 @@ impl GraphOptimizer {
                             continue;
                         };
 
+                        // A graph output gets its own constant, named after
+                        // the replaced value so that the output can still be
+                        // looked up by name.
+                        if graph_mut.output_ids().contains(&value_id) {
+                            let name = graph_mut
+                                .graph()
+                                .get_node(value_id)
+                                .and_then(|n| n.name())
+                                .map(|name| name.to_string());
+                            if let Some(const_id) = add_typed_constant(
+                                &mut graph_mut,
+                                name.as_deref(),
+                                &infer_result.constants[index],
+                                dtype,
+                            ) {
+                                graph_mut.replace_value(value_id, const_id);
+                            }
+                            continue;
+                        }
+
                         let const_id = match const_ids.entry((index, dtype)) {
                             Entry::Occupied(entry) => *entry.get(),
                             Entry::Vacant(entry) => {
                                 let Some(const_id) = add_typed_constant(
                                     &mut graph_mut,
+                                    None,
                                     &infer_result.constants[index],
                                     dtype,
                                 ) else {
